@@ -39,6 +39,8 @@ type CLICase struct {
 	Prior     string `json:"prior,omitempty"`   // extract: destination before the run: absent | garbage | partial; chop/cache/make/tar: target store empty ("absent") or holding some of the chunks ("partial")
 	PriorSeed uint64 `json:"prior_seed,omitempty"`
 	PriorLen  int    `json:"prior_len,omitempty"`
+	DestLen   int    `json:"dest_len,omitempty"` // extract: length of the destination's base name (0 = "blob"); near NAME_MAX no ".<name>.<random>" temp file fits next to it
+	Stats     bool   `json:"stats,omitempty"`    // make: --print-stats (the index file is then not written)
 }
 
 var cliCommands = []string{"extract", "verify-index", "chop", "cache", "make", "tar", "untar"}
@@ -48,11 +50,16 @@ var cliMakeSizes = gen.Sizes{Min: 1024, Avg: 1024, Max: 4096}
 
 const cliMakeArg = "1:1:4"
 
+// destination base-name lengths around the point where ".<name>.<up to 10 digits>" exceeds NAME_MAX (255)
+var cliDestLens = []int{200, 243, 244, 245, 250, 255}
+
+// cliCmdList: the commands drawn from (with weights). Quick: extract, and make at a low rate (a
+// handful of children per shard); thorough: all seven.
 func cliCmdList() []string {
 	if hx.Thorough() {
-		return cliCommands
+		return append([]string{"extract", "extract"}, cliCommands...)
 	}
-	return cliCommands[:1]
+	return []string{"extract", "extract", "extract", "extract", "extract", "extract", "extract", "make"}
 }
 
 // genCLI decides with fair coin flips (rapid's integer generators are biased to small values)
@@ -66,11 +73,7 @@ func genCLI(t *rapid.T) (Case, bool) {
 	var c Case
 	c.Entry = "cli"
 	c.Point = "http"
-	cmds := cliCmdList()
-	if len(cmds) > 1 {
-		cmds = append([]string{"extract", "extract"}, cmds...)
-	}
-	cl := &CLICase{Cmd: rapid.SampledFrom(cmds).Draw(t, "cmd")}
+	cl := &CLICase{Cmd: rapid.SampledFrom(cliCmdList()).Draw(t, "cmd")}
 	cl.Sig = rapid.SampledFrom([]string{"INT", "TERM"}).Draw(t, "sig")
 	c.Sizes = gen.Sizes{Min: 64, Avg: 128, Max: 256}
 	if rapid.Bool().Draw(t, "othersizes") {
@@ -115,9 +118,15 @@ func genCLI(t *rapid.T) (Case, bool) {
 		cl.Prior = rapid.SampledFrom([]string{"absent", "garbage", "partial"}).Draw(t, "prior")
 		cl.PriorSeed = rapid.Uint64().Draw(t, "priorseed")
 		cl.PriorLen = rapid.IntRange(0, 4000).Draw(t, "priorlen")
+		if rapid.Bool().Draw(t, "longname?") && rapid.Bool().Draw(t, "longname??") {
+			cl.DestLen = rapid.SampledFrom(cliDestLens).Draw(t, "destlen")
+		}
 	case "chop", "cache", "make", "tar":
 		cl.Prior = rapid.SampledFrom([]string{"absent", "absent", "partial"}).Draw(t, "prior")
 		cl.PriorSeed = rapid.Uint64().Draw(t, "priorseed")
+		if cl.Cmd == "make" {
+			cl.Stats = rapid.Bool().Draw(t, "printstats")
+		}
 	}
 	c.CLI = cl
 	return c, true
@@ -261,7 +270,11 @@ func cliListDir(dir string) []string {
 	ents, _ := os.ReadDir(dir)
 	var out []string
 	for _, e := range ents {
-		out = append(out, e.Name())
+		name := e.Name()
+		if len(name) > 80 {
+			name = fmt.Sprintf("%s…(%d bytes)", name[:8], len(name))
+		}
+		out = append(out, name)
 	}
 	sort.Strings(out)
 	return out
@@ -338,7 +351,11 @@ func runCLI(c Case) (o hx.Outcome) {
 		cliFill(objs, "src", blob, chunks, nil)
 		destDir = filepath.Join(work, "out")
 		os.Mkdir(destDir, 0o755)
-		dest = filepath.Join(destDir, "blob")
+		destName := "blob"
+		if cl.DestLen > 0 {
+			destName = strings.Repeat("x", min(cl.DestLen, 255))
+		}
+		dest = filepath.Join(destDir, destName)
 		switch cl.Prior {
 		case "garbage":
 			os.WriteFile(dest, gen.RandBytes(max(cl.PriorLen, 0), cl.PriorSeed), 0o600)
@@ -397,8 +414,17 @@ func runCLI(c Case) (o hx.Outcome) {
 		}
 		p := dx.WriteFile(work, "blob", blob)
 		out := filepath.Join(work, "made.caibx")
-		args = []string{"make", "-n", nStr, "-m", cliMakeArg, "-s", "@dst", out, p}
+		args = []string{"make", "-n", nStr, "-m", cliMakeArg, "-s", "@dst"}
+		if cl.Stats {
+			args = append(args, "--print-stats")
+		}
+		args = append(args, out, p)
 		complete = func(after map[string][]byte) string {
+			if cl.Stats {
+				// with --print-stats desync make does not write the index: the work is the store, which
+				// must hold every chunk of the reference index of the input
+				return cliStoreMissing(after, "dst", blob, chunks)
+			}
 			got, why := cliIndexCovers(out, blob)
 			if why != "" {
 				return why
@@ -531,6 +557,15 @@ func runCLI(c Case) (o hx.Outcome) {
 	}
 	if cl.Cmd == "extract" {
 		o.Class("cli:extract:prior="+priorDesc, map[bool]string{true: "cli:extract:inplace", false: "cli:extract:tmpfile"}[cl.Inplace])
+		if cl.DestLen > 0 {
+			o.Class("cli:extract:longname")
+			if !cl.Inplace && before.Exists {
+				o.Class("cli:extract:longname-tmpfile-existing-dest")
+			}
+		}
+	}
+	if cl.Cmd == "make" {
+		o.Class(map[bool]string{true: "cli:make:print-stats", false: "cli:make:index"}[cl.Stats])
 	}
 	mid := false
 	if res.SignalSent {
@@ -548,6 +583,9 @@ func runCLI(c Case) (o hx.Outcome) {
 	}
 	if mid {
 		o.Class("cli:signal-delivered-mid-flight", "cli:"+cl.Cmd+":mid-flight")
+		if cl.Cmd == "make" {
+			o.Class(map[bool]string{true: "cli:make:print-stats:mid-flight", false: "cli:make:index:mid-flight"}[cl.Stats])
+		}
 	}
 	switch {
 	case exit0:
@@ -572,9 +610,9 @@ func runCLI(c Case) (o hx.Outcome) {
 		}
 	}
 	o.Nontrivial = mid
-	o.Desc = map[string]any{"entry": "cli", "cmd": cl.Cmd, "sig": cl.Sig, "k": k, "n": n, "units": units, "inplace": cl.Inplace, "prior": priorDesc,
+	o.Desc = map[string]any{"entry": "cli", "cmd": cl.Cmd, "sig": cl.Sig, "k": k, "n": n, "units": units, "inplace": cl.Inplace, "prior": priorDesc, "dest_len": cl.DestLen, "print_stats": cl.Stats,
 		"signal_sent": res.SignalSent, "answered_before_signal": res.DoneBefore, "requests": nreq, "exit": res.Exit}
-	o.Key = fmt.Sprintf("cli/%s/%s/%d/%d/%d/%v/%s/%d/%v", cl.Cmd, cl.Sig, k, n, units, cl.Inplace, priorDesc, res.DoneBefore, exit0)
+	o.Key = fmt.Sprintf("cli/%s/%s/%d/%d/%d/%v/%s/%d/%v/%d/%v", cl.Cmd, cl.Sig, k, n, units, cl.Inplace, priorDesc, res.DoneBefore, exit0, cl.DestLen, cl.Stats)
 	o.Observed = map[string]any{"args": cliShortArgs(args), "exit": res.Exit, "killed_by_signal": res.Signaled, "signal_sent": res.SignalSent,
 		"answered_before_signal": res.DoneBefore, "requests": nreq, "output": cliTail(res.Stderr, 1500)}
 	return o
@@ -585,6 +623,9 @@ func cliShortArgs(args []string) []string {
 	for i, a := range args {
 		if strings.HasPrefix(a, "/") {
 			a = filepath.Base(a)
+		}
+		if len(a) > 80 {
+			a = fmt.Sprintf("%s…(%d bytes)", a[:8], len(a))
 		}
 		out[i] = a
 	}
@@ -607,15 +648,19 @@ func init() {
 	if !cliEnabled() {
 		return
 	}
-	spec.Rule += "; CLI part (only when the driver provides the freshly built CLI): cases = (command in extract [quick], + verify-index, chop, cache, make -s, tar -i -s, untar -i -s [thorough]; SIGINT or SIGTERM; -n 1..4; k; extract: -k or not, destination absent / garbage / partly right; target store empty or partly filled); " +
+	spec.Rule += "; CLI part (only when the driver provides the freshly built CLI): cases = (command in extract, make -s with and without --print-stats [quick, make at a low rate], + verify-index, chop, cache, tar -i -s, untar -i -s [thorough]; SIGINT or SIGTERM; -n 1..4; k; extract: -k or not, destination absent / garbage / partly right, destination base name blob or 200..255 bytes long (near NAME_MAX no temp file fits next to it); target store empty or partly filled); " +
 		"the harness serves the chunks over HTTP, holds the k-th request and all behind it, signals the child, releases, and lets the child finish on its own (verify-index: signal when the child has opened a 256 MiB sparse file that is corrupt in its last byte); " +
-		"oracle: exit status 0 => output file == blob / every chunk of the index valid in the harness store / index written tiles the input / unpacked tree == source; extract without -k and exit status != 0 => destination path unchanged (existence, inode, bytes, mode, mtime). " +
+		"oracle: exit status 0 => output file == blob / every chunk of the index valid in the harness store / index written tiles the input (make --print-stats writes no index: every chunk of the reference index of the input valid in the store) / unpacked tree == source; extract without -k and exit status != 0 => destination path unchanged (existence, inode, bytes, mode, mtime). " +
 		"non-trivial CLI case = the signal was sent while a request was held after at least one request had been answered; distinct by (command, signal, k, n, units, -k, prior, answered-before, exit 0?)"
 	spec.Required = append(spec.Required, "cli:extract", "cli:extract:inplace", "cli:extract:tmpfile", "cli:sig-INT", "cli:sig-TERM",
 		"cli:signal-delivered-mid-flight", "cli:exit-0", "cli:exit-nonzero", "cli:exit-nonzero:interrupted",
-		"cli:extract:tmpfile-interrupted-mid-flight", "cli:extract:inplace-interrupted-mid-flight")
+		"cli:extract:tmpfile-interrupted-mid-flight", "cli:extract:inplace-interrupted-mid-flight",
+		"cli:extract:longname-tmpfile-existing-dest", "cli:make", "cli:make:index:mid-flight", "cli:make:print-stats:mid-flight")
 	if hx.Thorough() {
 		for _, cmd := range cliCommands[1:] {
+			if cmd == "make" {
+				continue
+			}
 			spec.Required = append(spec.Required, "cli:"+cmd, "cli:"+cmd+":mid-flight")
 		}
 	}
@@ -650,7 +695,48 @@ func TestCLIEnum(t *testing.T) {
 			}
 		}
 	}
+	// destinations whose name leaves no room for a temp file next to them: without -k the existing
+	// destination must survive whatever the command does about the temp file
+	for i, dl := range []int{243, 244, 250, 255} {
+		for j, prior := range []string{"garbage", "partial"} {
+			for _, k := range []int{2, 6} {
+				job++
+				if job%hx.Shards() != hx.Shard() {
+					continue
+				}
+				c := Case{Entry: "cli", Point: "http", K: k, N: []int{1, 3}[(i+j)%2], Sizes: gen.Sizes{Min: 64, Avg: 128, Max: 256},
+					Pieces: []gen.Piece{{Kind: "rand", Len: 2400, Seed: 99}},
+					CLI:    &CLICase{Cmd: "extract", Sig: []string{"INT", "TERM"}[(i+k/6)%2], Prior: prior, PriorSeed: 0x5a5a5a5a5a5a5a5a, PriorLen: 777, DestLen: dl}}
+				if !hx.Case(t, spec, c) {
+					return
+				}
+				total++
+			}
+		}
+	}
 	hx.AddNote("cli_fixed_extract_cases", total)
+	// make -s with and without --print-stats, interrupted while the chunks are being stored
+	mtotal := 0
+	for _, stats := range []bool{false, true} {
+		for _, sig := range []string{"INT", "TERM"} {
+			for _, n := range []int{1, 3} {
+				for _, k := range []int{1, 2, 5, 9} {
+					job++
+					if job%hx.Shards() != hx.Shard() {
+						continue
+					}
+					c := Case{Entry: "cli", Point: "http", K: k, N: n, Sizes: cliMakeSizes,
+						Pieces: []gen.Piece{{Kind: "rand", Len: 20000, Seed: 98}},
+						CLI:    &CLICase{Cmd: "make", Sig: sig, Prior: "absent", Stats: stats}}
+					if !hx.Case(t, spec, c) {
+						return
+					}
+					mtotal++
+				}
+			}
+		}
+	}
+	hx.AddNote("cli_fixed_make_cases", mtotal)
 }
 
 // TestCLISelf checks the machinery of the CLI part against stand-ins for the CLI whose behaviour
